@@ -318,3 +318,51 @@ def run_multi(case):
 
 
 HANDLERS['multi'] = run_multi
+
+
+def run_step_confine(case):
+    """one emulate_cycle from User mode; returns [0] when privilege confinement holds afterwards, else [1, reason...]:
+    either still User mode with masks, other modes' banked registers, SPSRs and all system/MPU registers unchanged, or
+    an exception was taken to a privileged mode whose SPSR.M records User and the PC is at that mode's vector offset"""
+    import implrun
+    t = tables()
+    arm = build(case['state'])
+    before = dump(arm)
+    try:
+        with contextlib.redirect_stdout(io.StringIO()):
+            arm.emulate_cycle()
+    except NotImplementedError:
+        pass
+    except Exception as e:  # noqa
+        enc = implrun.exn_enc(e)
+        if enc[0] != 2:
+            return [0]          # host errors are C18's business
+    after = dump(arm)
+    sb, _ = statelib.decode_machine(before)
+    sa, _ = statelib.decode_machine(after)
+    names = t['sys_names']
+    icpsr = names.index('cpsr')
+    mode = sa['sys'][icpsr] & 0x1F
+    rn = t['rnames']
+    if mode == 0b10000:
+        if (sa['sys'][icpsr] >> 6) & 7 != (sb['sys'][icpsr] >> 6) & 7:
+            return [1, 1]
+        for i, nm in enumerate(names):
+            if i != icpsr and nm not in ('event_register',) and sa['sys'][i] != sb['sys'][i]:
+                return [1, 2, i]
+        if sa['sysl'] != sb['sysl']:
+            return [1, 3]
+        for i, nm in enumerate(rn):
+            if any(nm.endswith(sfx) for sfx in ('fiq', 'irq', 'svc', 'abt', 'und', 'mon', 'hyp')) and sa['R'][i] != sb['R'][i]:
+                return [1, 4, i]
+        return [0]
+    spsr = {0b10011: 'spsr_svc', 0b10111: 'spsr_abt', 0b11011: 'spsr_und', 0b10110: 'spsr_mon', 0b11010: 'spsr_hyp',
+            0b10010: 'spsr_irq', 0b10001: 'spsr_fiq'}.get(mode)
+    if spsr is None:
+        return [1, 5, mode]
+    if sa['sys'][names.index(spsr)] & 0x1F != 0b10000:
+        return [1, 6, mode]
+    return [0]
+
+
+HANDLERS['step_confine'] = run_step_confine
